@@ -97,6 +97,11 @@ func main() {
 	case "explore", "determinism":
 		if *mode == "determinism" {
 			sum.Determinism = &DetSummary{}
+			// the directed witness first: several providers receive requests in one block
+			runFixedWith(w, detWitness(*firstID-1), out, true, func(r *Runner) {
+				record(r)
+				checkDeterminism(r, sum)
+			})
 		}
 		for i := 0; i < *n; i++ {
 			hs := *seed*1000003 + int64(i)
